@@ -699,9 +699,10 @@ func DrawTable(t *rapid.T) Table {
 	}
 
 	// ---- columns
-	patPool := []string{"^A", "^B", "^C", "^[AB]", "^[^A]"}
+	// (anchored classes, and plain literals - unanchored, or anchored at both ends: a literal is matched anywhere in the line)
+	patPool := []string{"^A", "^B", "^C", "^[AB]", "^[^A]", "B", "x", "1", "^A$", "^B.$", "a"}
 	if tb.Rows == 0 {
-		patPool = []string{"^A", "^B", "^H", "^T", "^(T|HT)", "^[AB]", "T"}
+		patPool = []string{"^A", "^B", "^H", "^T", "^(T|HT)", "^[AB]", "T", "A", "x", "1", "^T$", "^H.$"}
 	}
 	for i := 0; i < ncols; i++ {
 		c := TableCol{Name: fmt.Sprintf("c%d", i)}
